@@ -1,0 +1,42 @@
+//go:build verif
+
+package cmd
+
+import (
+	"os"
+	"sync"
+)
+
+// Verification hooks (build tag verif) to impose the two extreme schedules of the
+// background .inkfempre writer of "solve -p" relative to the main flow:
+//
+//   - VERIF_WRITER=late: the writer is held until the main flow has written the solution
+//     and is about to finish.
+//   - VERIF_WRITER=early: the main flow is held right after spawning the writer until
+//     the writer has written the preprocessed file.
+var (
+	verifMainAtEndOnce sync.Once
+	verifMainAtEndCh   = make(chan struct{})
+	verifWriterOnce    sync.Once
+	verifWriterDoneCh  = make(chan struct{})
+)
+
+func verifWriterGate() {
+	if os.Getenv("VERIF_WRITER") == "late" {
+		<-verifMainAtEndCh
+	}
+}
+
+func verifWriterDone() {
+	verifWriterOnce.Do(func() { close(verifWriterDoneCh) })
+}
+
+func verifMainAfterSpawn() {
+	if os.Getenv("VERIF_WRITER") == "early" {
+		<-verifWriterDoneCh
+	}
+}
+
+func verifMainAtEnd() {
+	verifMainAtEndOnce.Do(func() { close(verifMainAtEndCh) })
+}
